@@ -194,3 +194,113 @@ def range_bounds(c, n, env=None):
     if n.get("k") == "call" and "RangeInclusive" in n.get("callee", "") and len(n["args"]) == 2:
         return N.norm(n["args"][0]), N.norm(n["args"][1]) + 1
     return None
+
+
+def index_copy(c, fn, body, src_name, ext_names):
+    """A copy `T[t0][t1].. = S[s0][s1]..` inside a loop nest (index loops over 0..len, enumerate-driven loops, or a mix).
+
+    ext_names: {rendered length expression of the source -> extent name}, e.g. {"data.len()": "R", "data[0].len()": "C"}.
+    Returns dict(target=[hid..], source=[hid..], roles={hid: extent name or None}, counters={hid: collection node},
+                 src_root=<node>, tgt_root=<node>, alloc=[extent names, outermost first] or None)   or None when there is not exactly one element copy."""
+    from ..hir import let_table, cpretty
+    TT = let_table(body)
+    asg = [x for x in walk(body) if x.get("k") == "assign"]
+    if len(asg) != 1:
+        return None
+    counter_of, elem_src, range_role = {}, {}, {}
+    for lp in [x for x in walk(body) if x.get("k") == "for"]:
+        it = strip(lp["iter"])
+        if it.get("k") == "struct" and it["path"] == "std::ops::Range":
+            fs = dict((a, b) for a, b in it["fs"])
+            end = cpretty(fs["end"], TT)
+            ext = ext_names.get(end)
+            if ext is None:
+                # `data[i].len()`: the length of a row of the source
+                import re
+                ext = ext_names.get(re.sub(r"\[[A-Za-z_][A-Za-z_0-9]*\]", "[0]", end))
+            if ext and e4.lit_value(fs["start"]) == "0" and pat_binds(lp["pat"]):
+                range_role[pat_binds(lp["pat"])[0][1]] = ext
+        elif it.get("k") == "mcall" and it["name"] == "enumerate":
+            src = strip(it["recv"])
+            while src is not None and src.get("k") == "mcall" and src["name"] in ("iter_mut", "iter"):
+                src = strip(src["recv"])
+            pb = pat_binds(lp["pat"])
+            if len(pb) == 2 and src is not None:
+                counter_of[pb[0][1]] = src
+                elem_src[pb[1][1]] = (pb[0][1], src)
+
+    def tokens(n):
+        out = []
+        n = strip(n)
+        while n is not None:
+            if n.get("k") == "index":
+                out.append(e4.local_hid(n["i"]))
+                n = strip(n["b"])
+            elif n.get("k") == "local" and n["hid"] in elem_src:
+                cnt, src = elem_src[n["hid"]]
+                out.append(cnt)
+                n = strip(src)
+            elif n.get("k") == "local" and n["hid"] in TT and strip(TT[n["hid"]]).get("k") in ("index", "local", "field"):
+                n = strip(TT[n["hid"]])
+            else:
+                break
+        return list(reversed(out)), n
+    lt, lb = tokens(asg[0]["l"])
+    rt, rb = tokens(asg[0]["r"])
+    alloc = None
+    if lb is not None and lb.get("k") == "local":
+        for s_ in walk(body):
+            if s_.get("k") == "let" and s_["pat"].get("k") == "bind" and s_["pat"]["hid"] == lb.get("hid") and s_.get("init") is not None:
+                dims = []
+                cur = strip(s_["init"])
+                # map/collect builders: (0..a).map(|_| ..).collect()
+                while cur is not None and cur.get("k") == "mcall" and cur["name"] == "collect":
+                    mp = strip(cur["recv"])
+                    if not (mp.get("k") == "mcall" and mp["name"] == "map" and len(mp["args"]) == 1):
+                        break
+                    rng = strip(mp["recv"])
+                    if not (rng.get("k") == "struct" and rng["path"] == "std::ops::Range"):
+                        break
+                    fs = dict((a, b) for a, b in rng["fs"])
+                    dims.append(ext_names.get(cpretty(fs["end"], TT)))
+                    cl = strip(mp["args"][0])
+                    cur = strip(cl["body"]) if cl.get("k") == "closure" else None
+                    while cur is not None and cur.get("k") == "blk" and not cur["b"]["stmts"]:
+                        cur = strip(cur["b"]["tail"])
+                while cur is not None and cur.get("k") == "call" and cur["callee"].endswith("vec::from_elem"):
+                    dims.append(ext_names.get(cpretty(cur["args"][1], TT)))
+                    cur = strip(cur["args"][0])
+                alloc = dims
+    return dict(target=lt, source=rt, roles={h: range_role.get(h) for h in lt + rt}, counters=counter_of, src_root=rb, tgt_root=lb, alloc=alloc, assign=asg[0])
+
+
+def accumulation_setter(ctx, rule):
+    """Network::set_accumulation(skip, loop) stores its first argument as the skip accumulation and its second as the loop
+    accumulation (E6 effect summary: two field assignments from the parameters by position), and nothing else writes those fields
+    besides the constructor."""
+    from .. import e6
+    c = ctx.crate
+    fn = ctx.fn("network::Network::set_accumulation")
+    E = e6.Exec(c, fn)
+    paths = [p for p in E.run_fn() if p.exit is None or p.exit[0] == "return"]
+    pn = [pat_binds(p)[0][0] for p in fn["params"][1:] if pat_binds(p)]
+    ok = len(paths) == 1 and not paths[0].pc and len(pn) == 2
+    got = "?"
+    if ok:
+        sets = {}
+        for e in paths[0].eff:
+            if e[0] == "set" and isinstance(e[1], tuple) and e[1][0] == "field" and e[1][1] == ("local", "self"):
+                sets[e[1][2]] = e[2]
+        got = ", ".join("%s := %s" % (k, e6.show(v, 2)) for k, v in sorted(sets.items()))
+        ok = sets == {"skipaccumulation": ("p", pn[0]), "loopaccumulation": ("p", pn[1])}
+    ctx.check(rule, "set_accumulation:wiring", ok, "accumulation-setter:" + short(got, 80), c.loc(fn),
+              "skipaccumulation := 1st argument, loopaccumulation := 2nd argument",
+              "Network::set_accumulation stores %s; the first argument configures skip connections, the second loop connections" % got)
+    writers = set()
+    for k, v in c.mir.items():
+        for w in v["facts"].get("writes", []):
+            if w.get("field") in ("skipaccumulation", "loopaccumulation") and "Network" in str(w.get("adt", "")):
+                writers.add(v["parent"])
+    allowed = {"network::Network::set_accumulation", "network::Network::new", "network::Network::create"}
+    ctx.check(rule, "set_accumulation:only-writer", writers <= allowed, "accumulation-written-by:" + ",".join(sorted(writers - allowed)), c.loc(fn),
+              "written only by the setter (and the constructor): %s" % sorted(writers))
